@@ -181,6 +181,16 @@ where
                                 trace!("from source: {message:?}");
                                 match message {
                                     Message::Handshake(source) => {
+                                        if ended.load(AtomicOrdering::Acquire) {
+                                            // the output is already over: a member that greets only
+                                            // now is told to stop at once
+                                            call!(
+                                                source,
+                                                Message::Terminate,
+                                                "to source: {message:?}"
+                                            );
+                                            return;
+                                        }
                                         source_talkbacks[i].store(Some(source));
                                         let start_count =
                                             start_count.fetch_add(1, AtomicOrdering::AcqRel) + 1;
